@@ -98,7 +98,8 @@ Tick == /\ ~dead /\ Ready
          \* 1. client flush (handle_writables)
          cErr == rCW /\ cPeer = "closed"
          f1 == IF rCW /\ ~cErr THEN FlushOne(cbuf, cOut) ELSE [b |-> cbuf, w |-> cOut]
-         td1 == (cErr /\ ~FIX) \/ (rCW /\ ~cErr /\ mustFlush /\ f1.b = <<>>)   \* as built: client write error => teardown now
+         \* as built: client write error => teardown now; final flush done => teardown now (whatever is queued for the upstream)
+         td1 == ~FIX /\ (cErr \/ (rCW /\ mustFlush /\ f1.b = <<>>))
          cg1 == cErr /\ FIX                           \* intended: client is gone, but let the upstream queue drain
          \* 2. upstream flush (plugin.write_to_descriptors)
          uErr == ~td1 /\ rUW /\ uPeer = "closed"
@@ -110,7 +111,10 @@ Tick == /\ ~dead /\ Ready
          cEof == doCR /\ cIn = <<>>
          nC == IF doCR /\ ~cEof THEN Min2(Len(cIn), RECV) ELSE 0
          ubuf3 == IF nC > 0 /\ upOpen /\ ~ub2 THEN Append(f2.b, SubSeq(cIn, 1, nC)) ELSE f2.b
-         rt3 == readsTeared \/ cEof \/ cg1
+         \* end of stream from the client: with output pending for it (it may only have closed its sending side) the handler
+         \* switches to flush-then-close (BaseTcpServerHandler.handle_readables), otherwise reads are torn down
+         cEofFlush == cEof /\ f1.b # <<>>
+         rt3 == readsTeared \/ (cEof /\ ~cEofFlush) \/ cg1
          \* 3b. upstream read (plugin.read_from_descriptors), only while reads are not torn down
          doUR == ~td2 /\ ~rt3 /\ rUR
          uEof == doUR /\ uIn = <<>>
@@ -119,15 +123,17 @@ Tick == /\ ~dead /\ Ready
          rt4 == rt3 \/ uEof
          \* 4. teardown decision
          drainedUp == ubuf3 = <<>> \/ ub2 \/ upBroken \/ uPeer # "open" \/ ~HasUp
-         td == td2 \/ (rt4 /\ cbuf3 = <<>> /\ (~FIX \/ drainedUp))     \* as built: ignores ubuf (F20)
+         \* as built: ignores ubuf (F20); intended: the final flush (mustFlush) also waits for the upstream queue
+         td == td2 \/ (IF FIX THEN (rt4 \/ mustFlush \/ cEofFlush) /\ cbuf3 = <<>> /\ drainedUp ELSE rt4 /\ cbuf3 = <<>>)
      IN /\ cOut' = f1.w /\ uOut' = f2.w
         /\ cIn' = SubSeq(cIn, nC + 1, Len(cIn)) /\ uIn' = SubSeq(uIn, nU + 1, Len(uIn))
         /\ cbuf' = cbuf3 /\ ubuf' = ubuf3
         /\ readsTeared' = rt4 /\ upBroken' = (upBroken \/ ub2) /\ dead' = td
-        /\ cause' = IF cErr THEN "cerr" ELSE IF td1 THEN "flushed" ELSE IF uErr THEN "uerr"
+        /\ cause' = IF cErr THEN "cerr" ELSE IF td1 /\ cause = "" THEN "flushed" ELSE IF uErr THEN "uerr"
                     ELSE IF cause # "" THEN cause           \* the first reason reads were torn down is kept
                     ELSE IF cEof THEN "ceof" ELSE IF uEof THEN "ueof" ELSE ""
-        /\ UNCHANGED <<cSent, uSent, cGot, uGot, cPeer, uPeer, mustFlush>>
+        /\ mustFlush' = (mustFlush \/ cEofFlush)
+        /\ UNCHANGED <<cSent, uSent, cGot, uGot, cPeer, uPeer>>
 Next == CSend \/ USend \/ CRead \/ URead \/ CShut \/ UShut \/ CClose \/ UClose \/ Tick
 Spec == Init /\ [][Next]_vars
 FairSpec == Spec /\ WF_vars(Tick) /\ WF_vars(CRead) /\ WF_vars(URead)
